@@ -1,7 +1,9 @@
 // C14: the real Collider (collider.h): CreateRadixTree, BuildInternalBoxes,
 // FindCollision, Box::Union/DoesOverlap, through the public Collider API.
 #include "vf_harness.h"
+#define private public
 #include "collider.h"
+#undef private
 using namespace manifold;
 using namespace manifold::collider_internal;
 #ifndef VF_N
@@ -125,6 +127,72 @@ static void e2e_box() {
 }
 extern "C" void h_e2e_box() { e2e_box<false>(); }
 extern "C" void h_e2e_self() { e2e_box<true>(); }
+
+// refit: UpdateBoxes with entirely new leaf boxes on an existing tree, then query
+extern "C" void h_e2e_update() {
+  Vec<Box> leafBB(VF_N), leafBB2(VF_N);
+  Vec<uint32_t> morton(VF_N);
+  for (int i = 0; i < VF_N; i++) {
+    leafBB[i] = SymBox();
+    leafBB2[i] = SymBox();
+    morton[i] = vf_nondet_u32();
+    if (i) vf_assume(morton[i - 1] <= morton[i]);
+  }
+  Collider c(leafBB, morton);
+  c.UpdateBoxes(leafBB2);
+  Vec<Box> queries(1);
+  queries[0] = SymBox();
+  int count[VF_N];
+  for (int i = 0; i < VF_N; i++) count[i] = 0;
+  Count f{count};
+  auto rec = MakeSimpleRecorder(f);
+  c.Collisions<false, Box>(rec, queries.cview(), false);
+  for (int i = 0; i < VF_N; i++)
+    VF_ASSERT(count[i] == (Overlap(leafBB2[i], queries[0]) ? 1 : 0));
+  VF_END();
+}
+
+// refit invariant on CONCRETE tree shapes (Morton arrays fixed per query, so the
+// radix tree is a constant after constant propagation) with symbolic old and
+// new boxes: after UpdateBoxes every internal box is exactly the union of its
+// two children, and a query reports exactly the overlapping leaves.
+#ifndef VF_SHAPE
+#define VF_SHAPE 0
+#endif
+extern "C" void h_refit() {
+  static const uint32_t codes[5][4] = {{1, 2, 4, 8}, {7, 7, 7, 7}, {1, 1, 9, 9}, {1, 0x10000000, 0x20000000, 0x40000000}, {0, 2, 3, 0x30000000}};
+  Vec<Box> leafBB(4), leafBB2(4);
+  Vec<uint32_t> morton(4);
+  for (int i = 0; i < 4; i++) {
+    leafBB[i] = SymBox();
+    leafBB2[i] = vf_bool() ? leafBB[i] : SymBox();  // a refit usually changes only some leaves
+    morton[i] = codes[VF_SHAPE][i];
+  }
+  Collider c(leafBB, morton);
+  c.UpdateBoxes(leafBB2);
+  for (int k = 0; k < 3; k++) {
+    const int node = 2 * k + 1;
+    const Box a = c.nodeBBox_[c.internalChildren_[k].first], b = c.nodeBBox_[c.internalChildren_[k].second];
+    const Box u = c.nodeBBox_[node];
+    const double lo[3] = {a.min.x < b.min.x ? a.min.x : b.min.x, a.min.y < b.min.y ? a.min.y : b.min.y, a.min.z < b.min.z ? a.min.z : b.min.z};
+    const double hi[3] = {a.max.x > b.max.x ? a.max.x : b.max.x, a.max.y > b.max.y ? a.max.y : b.max.y, a.max.z > b.max.z ? a.max.z : b.max.z};
+    VF_ASSERT(u.min.x == lo[0] && u.min.y == lo[1] && u.min.z == lo[2]);
+    VF_ASSERT(u.max.x == hi[0] && u.max.y == hi[1] && u.max.z == hi[2]);
+  }
+  for (int i = 0; i < 4; i++) {
+    const Box l = c.nodeBBox_[2 * i];
+    VF_ASSERT(l.min.x == leafBB2[i].min.x && l.max.z == leafBB2[i].max.z && l.min.y == leafBB2[i].min.y && l.max.y == leafBB2[i].max.y && l.min.z == leafBB2[i].min.z && l.max.x == leafBB2[i].max.x);
+  }
+  Vec<Box> queries(1);
+  queries[0] = SymBox();
+  int count[VF_N > 4 ? VF_N : 4];
+  for (int i = 0; i < 4; i++) count[i] = 0;
+  Count f{count};
+  auto rec = MakeSimpleRecorder(f);
+  c.Collisions<false, Box>(rec, queries.cview(), false);
+  for (int i = 0; i < 4; i++) VF_ASSERT(count[i] == (Overlap(leafBB2[i], queries[0]) ? 1 : 0));
+  VF_END();
+}
 
 // point query (projected in z), as used by the Boolean's vertex/face pass
 extern "C" void h_e2e_point() {
